@@ -32,7 +32,21 @@ PROP_SETTERS = [
 ]
 
 
-def via_apply(s, pending=()):
+def caps_frames():
+    """captured capability responses of real units (with and without custom fan speed, different mode / swing sets)"""
+    import respgen
+    out = []
+    for f in respgen.seeds():
+        if respgen.kind_of(f) == "caps":
+            try:
+                if isinstance(C.Response.construct(f), C.CapabilitiesResponse):
+                    out.append(f)
+            except Exception:  # noqa
+                pass
+    return out
+
+
+def via_apply(s, pending=(), caps=None):
     """set the state through the public setters (plus, optionally, property-protocol settings that are then pending
     for the same apply) and capture the 0x40 body apply() sends"""
     captured = []
@@ -44,6 +58,9 @@ def via_apply(s, pending=()):
     Device._send_command = fake_send
     try:
         dev = AC(ip="1.2.3.4", port=6444, device_id=1)
+        if caps is not None:
+            # the object has learnt the unit's capabilities before (what the unit supports must not rewrite the request)
+            dev._update_capabilities(C.Response.construct(caps))
         dev.power_state = s["power"]
         dev.beep = s["beep"]
         try:
@@ -80,9 +97,11 @@ def via_apply(s, pending=()):
     return states[0], None
 
 
-def one(ctx, stream, s, pending=()):
-    frame, err = via_apply(s, pending)
+def one(ctx, stream, s, pending=(), caps=None):
+    frame, err = via_apply(s, pending, caps)
     inp = {"state": state_str(s)}
+    if caps is not None:
+        inp["capabilities_frame"] = hx(caps)
     if pending:
         inp["pending_properties"] = list(pending)
     want = "ok " + state_str(s)
@@ -98,7 +117,7 @@ def one(ctx, stream, s, pending=()):
         cfg += f",temp:{s['temp'] * 50},freeze:{int(s['freeze'])},hum:{s['hum']},auxmode:{s['aux']}"
         rep = ctx.driver.ask(f"devrun counter=0 cfg={cfg} ops=apply@")
         msent = rep.rsplit(" sent=", 1)[1]
-        if msent != hx(frame) and not pending:
+        if msent != hx(frame) and not pending and caps is None:
             ctx.disagree(stream, inp, hx(frame), msent)
         # oracle: the vendor-layout decoder reads back the requested state
         dec = ctx.driver.ask(f"spec_decode_setstate body={hx(body)}")
@@ -113,8 +132,8 @@ def run(ctx):
     rng = ctx.rng
     seen_bodies = {}
 
-    def go(stream, s, pending=()):
-        body = one(ctx, stream, s, pending)
+    def go(stream, s, pending=(), caps=None):
+        body = one(ctx, stream, s, pending, caps)
         if body is not None:
             k = bytes(body)
             prev = seen_bodies.get(k)
@@ -164,6 +183,16 @@ def run(ctx):
     for _ in range(40 if ctx.tier == "quick" else 600):
         k = rng.randrange(1, 4)
         go("pending_properties", rand_state(rng), tuple(rng.sample([n for n, _ in PROP_SETTERS], k)))
+    # an object that has processed a capabilities response (every captured one) still sends exactly what is requested:
+    # every fan value, every mode / swing / flag against every profile
+    cf = caps_frames()
+    for k, frame in enumerate(cf):
+        for f in (range(0, 256) if (ctx.tier != "quick" or k < 3) else list(range(1, 103, 5)) + [41, 42, 59, 61, 79, 81, 101, 102]):
+            s = rand_state(rng)
+            s["fan"] = f
+            go("after_capabilities", s, caps=frame)
+        for _ in range(30):
+            go("after_capabilities", rand_state(rng), caps=frame)
     for _ in range(1500 if ctx.tier == "quick" else 30000):
         go("random", rand_state(rng))
 
@@ -177,7 +206,8 @@ def replay(ctx, case):
     s = {k: int(v) for k, v in st.items()}
     for k in BOOLS:
         s[k] = bool(s[k])
-    frame, err = via_apply(s, tuple(case["input"].get("pending_properties", ())))
+    cfr = case["input"].get("capabilities_frame")
+    frame, err = via_apply(s, tuple(case["input"].get("pending_properties", ())), bytes.fromhex(cfr) if cfr else None)
     print("impl body:", hx(frame[10:-3]) if frame else err)
     if ctx.driver and frame:
         print("spec decode:", ctx.driver.ask(f"spec_decode_setstate body={hx(frame[10:-3])}"))
